@@ -243,6 +243,10 @@ pub fn cmd_hex(t: &mut Toks) -> String {
 pub fn cmd_hll_env(t: &mut Toks) -> String {
     let count = t.n() as u64;
     let mut x = (t.n() as u64) | 1;
+    // very large cardinalities are only walked in the optimised build (the unoptimised one would take minutes)
+    if cfg!(debug_assertions) && count > 5_000_000 {
+        return "hll_env est=skipped-in-debug-build".to_string();
+    }
     let mut h = Hll8::new();
     for _ in 0..count {
         let mut el = [0u8; 32];
@@ -690,25 +694,32 @@ pub fn cmd_sign(t: &mut Toks) -> String {
         muts.push(("tags+front".into(), p));
     }
     let mut bad: Vec<String> = Vec::new();
+    // verification must not depend on what was verified before: after every rejected mutation the
+    // original event must still verify
+    let mut after: Vec<String> = Vec::new();
     let n = muts.len();
     for (name, p) in muts {
         match build_event(&p) {
             Ok(e2) => {
                 if e2.verify().is_ok() {
-                    bad.push(name);
+                    bad.push(name.clone());
+                }
+                if v0 && ev.verify().is_err() {
+                    after.push(name);
                 }
             }
             Err(_) => {}
         }
     }
     format!(
-        "sign r=ok id={} pk={} verify={} acc={} nmut={} accepted_mutations={}",
+        "sign r=ok id={} pk={} verify={} acc={} nmut={} accepted_mutations={} rejected_after={}",
         hex(&id),
         hex(&pk),
         v0,
         acc_ok,
         n,
-        if bad.is_empty() { "-".to_string() } else { bad.join(",") }
+        if bad.is_empty() { "-".to_string() } else { bad.join(",") },
+        if after.is_empty() { "-".to_string() } else { after.join(",") }
     )
 }
 
